@@ -408,6 +408,27 @@ def prog_alt():
     return p
 reg(prog_alt)
 
+def prog_ctldata():
+    """control and data flows of ONE task going to the same successor on another rank, the control flow declared
+    first (the activation message then carries outputs with and without payload, in that order), plus a second
+    pair declared data-first and a fan-out of the control flow to several ranks"""
+    p = Prog("ctldata", ["N", "M"])
+    s = p.task("SRC").param("k", "0", "N-1").affinity("2*k")
+    s.flow("C1", "CTL").out(TaskRef("DST", "C1", ["k"]))
+    s.flow("D1", "RW").inp(Coll("2*k")).out(TaskRef("DST", "D1", ["k"]))
+    s.flow("D2", "WRITE").inp(New()).out(TaskRef("DST", "D2", ["k"])).out(TaskRef("OBS", "X", ["k", ("range", "0", "M-1")]))
+    s.flow("C2", "CTL").out(TaskRef("DST", "C2", ["k"])).out(TaskRef("OBS", "C", ["k", ("range", "0", "M-1")]))
+    d = p.task("DST").param("k", "0", "N-1").affinity("2*k + 1")
+    d.flow("C1", "CTL").inp(TaskRef("SRC", "C1", ["k"]))
+    d.flow("D1", "RW").inp(TaskRef("SRC", "D1", ["k"])).out(Coll("2*k + 1"))
+    d.flow("D2", "READ").inp(TaskRef("SRC", "D2", ["k"]))
+    d.flow("C2", "CTL").inp(TaskRef("SRC", "C2", ["k"]))
+    o = p.task("OBS").param("k", "0", "N-1").param("j", "0", "M-1").affinity("2*k + 2 + j")
+    o.flow("C", "CTL").inp(TaskRef("SRC", "C2", ["k"]))
+    o.flow("X", "READ").inp(TaskRef("SRC", "D2", ["k"]))
+    return p
+reg(prog_ctldata)
+
 if __name__ == "__main__":
     if len(sys.argv) < 3:
         print("usage: gen.py <program|list> <outdir>"); sys.exit(2)
